@@ -16,7 +16,7 @@ from collections import Counter
 from typing import Optional
 
 from .. import runner
-from ..sharesmodel import (EVERYONE, FRIENDS, USERS, RefIndex, is_under, norm, parse_query, split_words)
+from ..sharesmodel import EVERYONE, FRIENDS, USERS, RefIndex, is_under, parse_query, split_words
 
 ID = 'C07'
 LEVEL = 'exploration'
@@ -37,9 +37,16 @@ RULE = (
     "without include/wildcard term; (b) entries moved between a parent and a child shared directory by add/remove "
     "and not yet rescanned: the statement does not say which directory their query path is relative to, both "
     "readings are accepted and the folder count is not judged in such states (file count is); (c) entries of a "
-    "nested directory dropped by load_from_settings until the next scan of that region (dontcare). A case is "
-    "non-trivial when at least one judged query had a non-empty expected set; distinct = (abstract operation "
-    "sequence, set of query kinds with non-empty expectation).")
+    "nested directory dropped by load_from_settings until the next scan of that region (dontcare); (d) the fate "
+    "of moved-unscanned entries after a cache round trip beyond one report (index:cache-roundtrip:moved-unscanned). "
+    "Signature suffixes name the mechanism and are labels only (computed after the verdict, partly by looking at "
+    "the real term map): wildcard-multi-suffix (a wildcard whose leading word part ends >= 2 different live "
+    "words), wildcard-stale-term-key (same, but the second word is a term-map key whose entries are gone, only "
+    "in histories with a removed directory), readded-directory (entry lies under a directory that was removed and "
+    "added again, and is absent by identity from the term map / refers to the old directory object), "
+    "unindexed-item (a returned entry is held by no current shared directory), moved-unscanned, partial-op (index "
+    "judged between partial operations). A case is non-trivial when at least one judged query had a non-empty "
+    "expected set; distinct = (abstract operation sequence, set of query kinds with non-empty expectation).")
 ASSUMPTIONS = [
     "alphabet restricted to characters whose str.lower() is 1:1 and for which str.isalnum() equals [^\\W_] "
     "(ASCII, é É ü Ü ñ Ñ, CJK ideographs); NFC file names",
@@ -57,6 +64,21 @@ SHARD_TIMEOUT = {'quick': 600, 'thorough': 5400}
 WHAT_FAILS = {
     'query:missing:wildcard-multi-suffix': "a wildcard term whose suffix ends >= 2 different indexed words returns "
                                            "only files containing all of those words (term-map sets are intersected)",
+    'query:missing:wildcard-stale-term-key': "same intersection, with a term-map key left behind (empty set) by the "
+                                             "entries of a removed directory once they are garbage-collected",
+    'query:extra:unindexed-item': "entries of a removed shared directory stay in the term map (weak references, "
+                                  "directory<->item reference cycle) and are returned until a cyclic GC runs",
+    'query:missing:readded-directory': "after remove + add of the same directory + scan, the new entries are equal "
+                                       "to the stale ones, WeakSet.add keeps the stale reference, and the file "
+                                       "drops out of the term map when the stale entry is collected",
+    'index:wrong-owner:readded-directory': "after remove(nested) + add of the same directory + scan, the set union "
+                                           "keeps the old equal entry objects, which still refer to the removed "
+                                           "directory object (old share mode) even after a full scan",
+    'locked-split:readded-directory': "lock status is taken from the removed directory object the entry still refers to",
+    'locked-split:moved-unscanned': "entries moved between parent and child shared directory by add/remove keep "
+                                    "referring to the old directory until rescanned: lock status follows the old one",
+    'index:cache-roundtrip:moved-unscanned': "the cache re-parents moved-unscanned entries to their holder while "
+                                             "keeping the old relative sub-directory: absolute paths become wrong",
 }
 
 SIZES = {'quick': 1000, 'thorough': 20000}
@@ -298,16 +320,26 @@ class QueryGen:
         return terms
 
 
-def classify(query: str, words) -> str:
-    """Term-kind label for signatures (never used for the verdict)."""
+def classify(query: str, words, stale_keys=()) -> str:
+    """Term-kind label for signatures (never used for the verdict).  ``words``:
+    words of live entries; ``stale_keys``: further term-map keys whose entries are
+    gone (only passed when a shared directory was removed earlier in the history)."""
     pq = parse_query(query)
+    stale_hit = False
     for t in pq.wildcard:
         k = 0
         while k < len(t) and t[k].isalnum():
             k += 1
         first = t[:k]
-        if first and sum(1 for w in words if w.endswith(first)) >= 2:
+        if not first:
+            continue
+        n_live = sum(1 for w in words if w.endswith(first))
+        if n_live >= 2:
             return 'wildcard-multi-suffix'
+        if n_live + sum(1 for w in stale_keys if w not in words and w.endswith(first)) >= 2:
+            stale_hit = True
+    if stale_hit:
+        return 'wildcard-stale-term-key'
     n_incl = len(pq.include) + len(pq.wildcard)
     if pq.exclude and n_incl == 1:
         return 'exclude'
@@ -776,7 +808,7 @@ class Harness:
         by_key = {it.key: it for it in entries}
         # labels only: words of the reference index plus the keys of the real term map
         # (stale keys of unindexed entries also take part in the library's suffix expansion)
-        words = model.words() | set(getattr(self.manager, '_term_map', {}) or {})
+        model_words = model.words()
         paths = [it.qpath_owner() for it in entries] + [it.qpath_base() for it in entries if it.moved]
         if not paths and rng.random() < 0.5:
             paths = [os.path.relpath(p, self.tree).replace(os.sep, '\\') for p in self.disk_files()]
@@ -797,7 +829,9 @@ class Harness:
             if sel is None:
                 runner.add_obs(res, 'queries_unjudged_no_inclusion_term')
                 continue
-            kind = classify(query, words)
+            term_map = getattr(self.manager, '_term_map', {}) or {}
+            words = model_words | {w for w, bucket in term_map.items() if len(bucket)}
+            kind = classify(query, words, stale_keys=list(term_map) if self.removed else ())
             runner.add_obs(res, 'queries_judged')
             runner.add_cover(res, 'query_kinds', kind)
             if username is not None:
